@@ -6,3 +6,8 @@ def jobs(tier):
     return C20.jobs(tier) + C27.jobs_fold(4) + [j for j in C16.jobs(tier) if not j.name.startswith(('stringToRational.decimal', 'stringToRational.fraction'))]
 def info(tier, results):
     return C20.info(tier, results)
+
+def replay(r, o):
+    if r['job'].startswith('interpPipe'): return C20.replay(r, o)
+    if r['job'].startswith(('isIntString', 'isRealString', 'stringToRational')): return C16.replay(r, o)
+    return None
